@@ -131,14 +131,48 @@ def _nondet_calls(ctx, f: FunctionInfo):
             yield name, c
 
 
+_ORDER_FREE = {"sorted", "len", "min", "max", "sum", "any", "all", "bool", "frozenset", "set"}
+
+
 def _set_constructions(f: FunctionInfo):
+    """set displays / comprehensions / set() calls whose *iteration order* can reach the output: a set that is only asked
+    `x in s`, measured, or handed to an order-free consumer (sorted, len, min, max, sum, any, all) is not reported"""
     from ..types import _iter_own_nodes
+    root = f.node.body if f.is_lambda else f.node
+    parent = {}
+    for n in ast.walk(root):
+        for c in ast.iter_child_nodes(n):
+            parent[id(c)] = n
+
+    def order_free_use(node) -> bool:
+        up = parent.get(id(node))
+        if isinstance(up, ast.Compare) and node in up.comparators and all(isinstance(o, (ast.In, ast.NotIn)) for o in up.ops):
+            return True
+        if isinstance(up, ast.Call) and isinstance(up.func, ast.Name) and up.func.id in _ORDER_FREE and node in up.args:
+            return True
+        if isinstance(up, ast.BinOp) and isinstance(up.op, (ast.Sub, ast.BitAnd, ast.BitOr, ast.BitXor)):
+            return order_free_use(up)            # set algebra: judged by what consumes the result
+        if isinstance(up, ast.Call) and isinstance(up.func, ast.Attribute) and up.func.value is node and \
+                up.func.attr in ("difference", "union", "intersection", "symmetric_difference", "issubset", "issuperset", "isdisjoint"):
+            return up.func.attr.startswith("is") or order_free_use(up)
+        return False
+
+    def harmless(node) -> bool:
+        if order_free_use(node):
+            return True
+        up = parent.get(id(node))
+        if isinstance(up, ast.Assign) and len(up.targets) == 1 and isinstance(up.targets[0], ast.Name) and up.value is node:
+            name = up.targets[0].id
+            stores = [x for x in ast.walk(root) if isinstance(x, ast.Name) and x.id == name and isinstance(x.ctx, ast.Store)]
+            loads = [x for x in ast.walk(root) if isinstance(x, ast.Name) and x.id == name and isinstance(x.ctx, ast.Load)]
+            return len(stores) == 1 and bool(loads) and all(order_free_use(x) for x in loads)
+        return False
     nodes = ast.walk(f.node.body) if f.is_lambda else _iter_own_nodes(f.node)
     for n in nodes:
-        if isinstance(n, (ast.Set, ast.SetComp)):
-            yield n
-        elif isinstance(n, ast.Call) and isinstance(n.func, ast.Name) and n.func.id in ("set", "frozenset"):
-            yield n
+        if isinstance(n, (ast.Set, ast.SetComp)) or (isinstance(n, ast.Call) and isinstance(n.func, ast.Name)
+                                                      and n.func.id in ("set", "frozenset")):
+            if not harmless(n):
+                yield n
 
 
 def nondeterminism(ck):
